@@ -50,7 +50,7 @@ func main() {
 		ID:    "C16",
 		Level: "exploration",
 		Pkg:   "./cmd/c16",
-		Rule: "files are generated per calibration variant from classes: clean CSV (header present/absent/variant, 2 or 3 columns, LF/CRLF, quoted fields), one CSV-level defect at a random row (single column, extra column, bare quote, quote+junk, unterminated quote, blank field line), single-column first row, token soup, structural extremes (empty, header only, no final newline, many rows), absent file, same-length rewrite of an already parsed file with its modification time restored; " +
+		Rule: "files are generated per calibration variant from classes: clean CSV (header present/absent/variant, 2 or 3 columns, LF/CRLF, quoted fields), one CSV-level defect at a random row (single column, extra column, bare quote, quote+junk, unterminated quote, blank field line), single-column first row, token soup, structural extremes (empty, header only, no final newline, many rows), absent file, rows with distinct unusable fields of 120-3000 bytes, files of 64 KiB to 4 MiB (tens of thousands of rows; byte 2^20 inside the timestamp, inside the reading, on the newline, file size 2^20 -1/0/+1), same-length rewrite of an already parsed file with its modification time restored; " +
 			"timestamps: around genesis, slot boundaries, 32-bit second boundary, far future, before genesis, beyond int64, non-numeric; readings: +-24 boundary, truncation targets, negatives, scientific, hex, huge, NaN/Inf, text. " +
 			"Non-trivial = a file for which the reference rule demands at least one record or that has a CSV-level error; distinct by (calibration text, file text).",
 		Assumptions: []string{
@@ -65,7 +65,8 @@ func main() {
 		Post: func(c *ev.Check, outs []*run.Outcome) {
 			for _, k := range []string{"rows.ts.in-range/scaled", "rows.ts.in-range/below-24", "rows.ts.in-range/unparseable", "rows.ts.before-genesis", "rows.ts.not-an-int64", "rows.row.too-few-fields",
 				"files.csv_error", "files.wellformed", "files.absent", "records.negative_scaled", "records.matched", "calib.valid_readback", "calib.malformed_rejected", "calib.absent_defaults",
-				"rows.boundary24", "farfuture.probes", "files.single_column_first_row", "rewrite.same_size_same_mtime"} {
+				"rows.boundary24", "farfuture.probes", "files.single_column_first_row", "rewrite.same_size_same_mtime",
+				"gen.long-fields", "big.files", "big.limit_inside_timestamp", "big.limit_inside_reading", "big.limit_on_newline", "big.size_at_limit"} {
 				c.Require(k, 1)
 			}
 			c.Require("records.matched", 1000)
@@ -216,6 +217,9 @@ const two32 = int64(1) << 32
 
 func (g *fgen) ts() string {
 	rng := g.rng
+	if rng.Intn(40) == 0 {
+		return g.longField()
+	}
 	G := g.genesis
 	d := func(v int64) string { return strconv.FormatInt(v, 10) }
 	switch k := rng.Intn(100); {
@@ -257,6 +261,9 @@ func (g *fgen) ts() string {
 
 func (g *fgen) val() string {
 	rng := g.rng
+	if rng.Intn(25) == 0 {
+		return g.longField()
+	}
 	ff := func(f float64) string { return fmtF(rng, f) }
 	switch k := rng.Intn(100); {
 	case k < 12:
@@ -292,6 +299,47 @@ func (g *fgen) val() string {
 	default:
 		return []string{"", " ", "error", "n/a", "12abc", "1.2.3", "--5", "5-", "1e", "e5", ".", "+", "-", "0x", "1_000", "١٢٣", " 100", "100 ", "1 000", "1,5", "12\"3", "\"", "a\nb", "null", "1e5e5", "1/2", "100W", "1.000,5", "\t100", "100\r"}[rng.Intn(30)]
 	}
+}
+
+// longField: an unusable field of hundreds to thousands of bytes whose text
+// differs from every other one from its first bytes on.
+func (g *fgen) longField() string {
+	rng := g.rng
+	n := 165 + rng.Intn(300)
+	switch rng.Intn(8) {
+	case 0:
+		n = 500 + rng.Intn(2500)
+	case 1:
+		n = 120 + rng.Intn(60)
+	}
+	var sb strings.Builder
+	switch rng.Intn(4) {
+	case 0: // more digits than a float64 can hold
+		if n < 310 {
+			n += 310
+		}
+		sb.WriteByte(byte('1' + rng.Intn(9)))
+		for sb.Len() < n {
+			sb.WriteByte(byte('0' + rng.Intn(10)))
+		}
+	case 1: // firmware error text
+		fmt.Fprintf(&sb, "ERR %08x: ", rng.Uint32())
+		words := []string{"sensor", "fault", "CT clamp", "overrange", "i2c timeout", "retry", "0x%04x", "phase B", "checksum"}
+		for sb.Len() < n {
+			fmt.Fprintf(&sb, words[rng.Intn(len(words))]+" ", rng.Intn(65536))
+		}
+	case 2: // a number followed by junk
+		fmt.Fprintf(&sb, "%d.", rng.Int63())
+		for sb.Len() < n {
+			sb.WriteByte("0123456789abcdef-+.eE_ "[rng.Intn(23)])
+		}
+	default: // text with separators (needs quoting)
+		fmt.Fprintf(&sb, "%x", rng.Int63())
+		for sb.Len() < n {
+			sb.WriteString([]string{"a", "7", ",", "\"", " ", "\n", "xyz", "é"}[rng.Intn(8)])
+		}
+	}
+	return sb.String()
 }
 
 // enc writes one field; style 0 = as short as RFC 4180 allows, 1 = always quoted.
@@ -358,6 +406,25 @@ func (g *fgen) file() (string, string) {
 			}
 		}
 		return rows
+	}
+	if rng.Intn(12) == 0 {
+		// many rows with distinct, very long unusable fields (each one is logged by the reader)
+		var rows []string
+		if h, ok := g.header(2); ok {
+			rows = append(rows, h)
+		}
+		for i, n := 0, 3+rng.Intn(14); i < n; i++ {
+			t := strconv.FormatInt(g.genesis+rng.Int63n(300000), 10)
+			switch rng.Intn(6) {
+			case 0:
+				rows = append(rows, enc(g.longField(), 0)+","+strconv.FormatFloat(24+rng.Float64()*1e5, 'f', 2, 64))
+			case 1:
+				rows = append(rows, t+","+enc(g.longField(), 1))
+			default:
+				rows = append(rows, t+","+enc(g.longField(), 0))
+			}
+		}
+		return join(rows, rng.Intn(6) != 0), "long-fields"
 	}
 	switch k := rng.Intn(100); {
 	case k < 52:
@@ -527,7 +594,7 @@ func (w *world) judgeFile(cr *clientRun, c *client.Client, content string, absen
 	for i, g := range got {
 		recs[i] = efref.Rec{Slot: g.Timeslot, Value: g.Energy}
 	}
-	replay := map[string]interface{}{"calibration": calText(cr.cal), "file": content, "genesis": w.genesis, "batch": w.b}
+	replay := map[string]interface{}{"calibration": calText(cr.cal), "file": forReplay(content), "genesis": w.genesis, "batch": w.b}
 	if absent {
 		r.Count("files.absent", 1)
 		if err == nil && len(got) > 0 {
@@ -861,6 +928,7 @@ func child(b run.Batch, r *ev.Result) {
 	rng.Read(w.gca[:])
 	// the wire run first: its waits do not depend on what came before
 	w.wireRun(0, nwire)
+	w.bigRun(500)
 	start := time.Now()
 	for i := 0; i < ncal && r.NumViolations() <= 20; i++ {
 		// A test-mode client whose NewClient failed (malformed calibration) cannot
